@@ -169,6 +169,6 @@ def conclude(ctx: Ctx, t0: float, analysis_errors: List[str], selftest: Optional
     n_inst = len(ctx.instances)
     print(f"[{ctx.prop}] tier={ctx.tier} rules={len(ctx.rules_run)} instances={n_inst} distinct={len(distinct)} "
           f"violations={len(violations)} known={len(matched)} errors={len(analysis_errors)} wall={wall:.2f}s")
-    if analysis_errors:
-        return 2
-    return 1 if violations else 0
+    if violations:
+        return 1  # a positively established violation outranks an unrelated analysis error
+    return 2 if analysis_errors else 0
